@@ -5,6 +5,7 @@
   python3 go/extract/panicsites/resync.py --write    # rewrite the entry list
 
 Keeps the clause of every site that still exists, drops vanished sites, and inserts new sites as
+`.guarded` when the extractor found a guard of a sufficient class for them, else as
 `.safe "UNCLASSIFIED: …"` and re-guarded ones with their old clause and the NEW guard text.  Both
 must then be reviewed by hand: an unclassified or re-guarded site is exactly what the obligation
 `inventory_matches` exists to surface (flags whose guard text changed turn off until the expected
@@ -15,7 +16,8 @@ gen = open(os.path.join(root, "lean/DosModel/Gen/PanicSites.lean")).read()
 inv_path = os.path.join(root, "lean/DosModel/Model/HandlersInv.lean")
 inv = open(inv_path).read()
 S = r'"((?:[^"\\]|\\.)*)"'
-sites = re.findall(r'^\s*⟨%s, %s, %s⟩' % (S, S, S), gen[gen.index("def sites"):gen.index("def unlisted")], re.M)
+sites = [t[:3] for t in re.findall(r'^\s*⟨%s, %s, %s, %s⟩' % (S, S, S, S), gen[gen.index("def sites"):gen.index("def unlisted")], re.M)]
+cls = {t[0]: t[3] for t in re.findall(r'^\s*⟨%s, %s, %s, %s⟩' % (S, S, S, S), gen[gen.index("def sites"):gen.index("def unlisted")], re.M)}
 a = inv.index("def table : List Entry := [\n") + len("def table : List Entry := [\n")
 b = inv.index("]\n\n/-- guards that protect a receiver")
 old = {}
@@ -24,7 +26,10 @@ for m in re.finditer(r'^\s*⟨%s, %s, (.*)⟩,?\s*$' % (S, S), inv[a:b], re.M):
 rows, notes = [], []
 for key, kind, guard in sites:
     if key not in old:
-        rows.append((key, guard, '.safe "UNCLASSIFIED: review this %s site"' % kind)); notes.append("+ " + key)
+        if cls.get(key) in ("nil", "len", "ok", "read", "defer-made", "made"):
+            rows.append((key, guard, '.guarded')); notes.append("+ %s   (guard class %s: entered as .guarded)" % (key, cls[key]))
+        else:
+            rows.append((key, guard, '.safe "UNCLASSIFIED: review this %s site"' % kind)); notes.append("+ " + key)
     else:
         g, clause = old[key]
         if g != guard:
@@ -34,6 +39,10 @@ for key in old:
     if key not in [s[0] for s in sites]:
         notes.append("- " + key)
 print("\n".join(notes) if notes else "table and inventory agree")
+cnt = [0, 0, 0]
+for _, _, c in rows:
+    cnt[1 if c.startswith(".guarded") else 2 if c.startswith(".safe") else 0] += 1
+print("classification_counts (modelled, safe by extracted guard, safe by prose): (%d, %d, %d)" % tuple(cnt))
 if "--write" in sys.argv and notes:
     body = ",\n".join('  ⟨"%s", "%s", %s⟩' % r for r in rows) + "\n"
     open(inv_path, "w").write(inv[:a] + body + inv[b:])
